@@ -185,6 +185,10 @@ class SimFS:
                 if opname in ("write", "flush", "close"):
                     return "ENOSPC"
                 raise OSError(errno.ENOSPC, "No space left on device (simulated)", path)
+            if kind == "NOMEM":
+                # a failing allocation (the buffered writer cannot get its buffer, the serialiser cannot grow its frame): what the
+                # saving code sees is a MemoryError - not an OSError - out of the file operation it was in
+                raise MemoryError("simulated allocation failure")
         return None
 
     def _after(self, post, opname):
